@@ -78,10 +78,14 @@ type WorldOpts struct {
 	Binary       bool // run the built service binary (cmd/main.go) as a child process and talk gRPC to it
 	// DiscoveryExplicit (with Discovery): the endpoints are spelled out as well and the keys come from jwks_fetcher
 	DiscoveryExplicit bool
-	LiveJWKS          bool   // the key source answers with the provider's CURRENT published keys (models a fetcher that has refreshed)
-	LogoutURI         string // explicit logout redirect URI (also under discovery)
-	TriggerRules      []*configv1.TriggerRule
-	AuthURI           string // override (e.g. with its own query)
+	// Neighbour ("memory" | "redis", with RealFactory): another OIDC filter in an EARLIER chain that no request of this
+	// world matches, on the other kind of store (Redis: database 7 of the same server) with timeouts of its own
+	Neighbour                   string
+	NeighbourAbs, NeighbourIdle time.Duration
+	LiveJWKS                    bool   // the key source answers with the provider's CURRENT published keys (models a fetcher that has refreshed)
+	LogoutURI                   string // explicit logout redirect URI (also under discovery)
+	TriggerRules                []*configv1.TriggerRule
+	AuthURI                     string // override (e.g. with its own query)
 	// CfgHook may replace the filter configuration (e.g. after passing it through the real loader).
 	// Returning nil abandons the case as out of domain.
 	CfgHook func(w *World, cfg *oidcv1.OIDCConfig) *oidcv1.OIDCConfig
@@ -234,6 +238,22 @@ func NewWorld(c *Case, o WorldOpts) *World {
 	full := &configv1.Config{
 		Chains:       []*configv1.FilterChain{{Name: "oidc", Filters: []*configv1.Filter{{Type: &configv1.Filter_Oidc{Oidc: cfg}}}}},
 		TriggerRules: o.TriggerRules,
+	}
+	if o.Neighbour != "" {
+		ncfg := &oidcv1.OIDCConfig{
+			AuthorizationUri: "http://neighbour-idp.test/auth", TokenUri: "http://neighbour-idp.test/token", CallbackUri: "https://neighbour.test/cb",
+			JwksConfig: &oidcv1.OIDCConfig_Jwks{Jwks: JWKS(w.IdP.Keys)}, ClientId: "neighbour", CookieNamePrefix: "neighbour",
+			ClientSecretConfig: &oidcv1.OIDCConfig_ClientSecret{ClientSecret: "neighbour-secret"}, Scopes: []string{"openid"},
+			IdToken:                &oidcv1.TokenConfig{Header: "authorization", Preamble: "Bearer"},
+			AbsoluteSessionTimeout: uint32(o.NeighbourAbs / time.Second), IdleSessionTimeout: uint32(o.NeighbourIdle / time.Second),
+		}
+		if o.Neighbour == "redis" {
+			mr, _ := Redis()
+			ncfg.RedisSessionStoreConfig = &oidcv1.RedisConfig{ServerUri: "redis://" + mr.Addr() + "/7"}
+		}
+		full.Chains = append([]*configv1.FilterChain{{Name: "neighbour",
+			Match:   &configv1.Match{Header: "x-neighbour", Criteria: &configv1.Match_Equality{Equality: "yes"}},
+			Filters: []*configv1.Filter{{Type: &configv1.Filter_Oidc{Oidc: ncfg}}}}}, full.Chains...)
 	}
 	w.Full = full
 	prov := oidc.NewJWKSProvider(full, w.TLS)
